@@ -754,7 +754,7 @@ var corpus = [][]string{
 	// the same value twice on one query object: called twice per matching operation, once after one cancel
 	{"db hashmap 0", "q 0 a T", "hook 0 0 p p s7", "rehook 1 0 0", "put LI a/x 1 foo -", "raw a/x", "get LI a/x", "unhook 0", "put LI a/x 2 foo -", "raw a/x", "get LI a/x", "unhook 0", "unhook 1", "put LI a/x 3 foo -", "sizes"},
 	// runtime registry: provider registered BEFORE the injection, subscription after it, push through the early provider's function
-	{"db regraw 0", "q 0 - T", "prov 0 a/", "sub 9 LI 0", "ppush 0 a/x 1 foo -", "put LI a/x 1 foo -", "sizes", "inject", "inject", "sub 0 LI 0", "prov 1 b/", "prov 2 a/x/", "ppush 0 a/x 2 foo -", "drain",
+	{"db regraw 0", "q 0 - T", "prov 0 a/", "sub 9 LI 0", "ppush 0 a/x 1 foo -", "put LI a/x 1 foo -", "raw a/x", "get LI a/x", "raw a/x", "exists LI a/x", "sizes", "inject", "inject", "sub 0 LI 0", "prov 1 b/", "prov 2 a/x/", "ppush 0 a/x 2 foo -", "drain",
 		"ppush 1 b/y 3 bar -", "ppush 0 zz 4 baz -", "ppush 1 a/x 5 foo d", "drain", "put LI a/x 6 foo -", "put LI b/x 7 foo -", "put LI c 8 foo -", "drain", "cancel 0", "ppush 0 a/x 9 foo -", "drain", "sizes"},
 	// runtime registry: unmanaged keys, no delete
 	{"db reg 0", "q 0 - T", "sub 0 LI 0", "put LI a/x 1 foo -", "drain", "put LI b/x 1 foo -", "drain", "get LI a/x", "del LI a/x", "drain", "raw a/x", "push a/y 2 bar -", "drain"},
